@@ -252,3 +252,20 @@ pub fn sign_runs<D: Dom>(cx: &RunCtx, kinds: &[Kind]) {
     }
     run_list::<D>(cx, "E-FAM runs of prefix signs x edge operands", &inputs, &D::pool_critical(), kinds);
 }
+
+fn big_integers_dom<D: Dom>(cx: &RunCtx, kinds: &[Kind]) {
+    let inputs = refmodel::families::big_integers();
+    run_list::<D>(cx, "E-FAM exact divisions, remainders and products of integers beyond 2^53", &inputs, &[D::default_at()], kinds);
+}
+
+pub fn big_integers_all(cx: &RunCtx, kinds: &[Kind]) {
+    big_integers_dom::<F64>(cx, kinds);
+    big_integers_dom::<I64>(cx, kinds);
+    big_integers_dom::<Dec>(cx, kinds);
+    big_integers_dom::<Cpx>(cx, kinds);
+    big_integers_dom::<Num>(cx, kinds);
+}
+
+pub fn big_integers_one<D: Dom>(cx: &RunCtx, kinds: &[Kind]) {
+    big_integers_dom::<D>(cx, kinds);
+}
